@@ -405,6 +405,131 @@ pub proof fn lemma_final(s0: St, a: PathV, done: Set<PathV>, ps: Seq<PathBuf>)
 //@ obligation lemma_step_pending props=C09,C01
 //@ obligation lemma_prefix_exists props=C09,C01
 
+// ---- the relocated tree is well formed (C03 for move_p), outside the known finding: the destination's parent is a real directory
+pub proof fn lemma_key_shapes(a: PathV, d0: PathV, k: PathV)
+    requires in_sub(d0, k)
+    ensures ({ let m = a + k.skip(d0.len() as int); in_sub(a, m) && m.len() == a.len() + k.len() - d0.len() && d0 + m.skip(a.len() as int) =~= k
+               && (k.len() > d0.len() ==> m.drop_last() =~= a + k.drop_last().skip(d0.len() as int) && m.last() == k.last() && in_sub(d0, k.drop_last())) })
+{
+    let m = a + k.skip(d0.len() as int);
+    assert(m.take(a.len() as int) =~= a);
+    assert(m.skip(a.len() as int) =~= k.skip(d0.len() as int));
+    assert(d0 + k.skip(d0.len() as int) =~= k) by { assert(k.take(d0.len() as int) == d0); assert(k.take(d0.len() as int) + k.skip(d0.len() as int) =~= k); }
+    if k.len() > d0.len() {
+        assert(k.drop_last().skip(d0.len() as int) =~= k.skip(d0.len() as int).drop_last());
+        assert(k.drop_last().take(d0.len() as int) =~= k.take(d0.len() as int));
+    }
+}
+pub proof fn lemma_moved_wf(s0: St, a: PathV, d0: PathV, st: St)
+    requires
+        wf(s0), s0.entries.contains_key(a), a.len() > 0, d0.len() > 0, d0 != a, free_below(s0, d0), !in_sub(a, d0),
+        s0.entries.contains_key(d0.drop_last()), s0.entries[d0.drop_last()].dir, !s0.entries[d0.drop_last()].link,
+        state_after(st, s0, a, d0, sub_dom(s0, a)),
+    ensures wf(st)
+{
+    reveal(state_after);
+    let done = sub_dom(s0, a);
+    let pa = a.drop_last();
+    let pd = d0.drop_last();
+    assert(in_sub(a, a)) by { assert(a.take(a.len() as int) =~= a); }
+    assert(in_sub(d0, d0)) by { assert(d0.take(d0.len() as int) =~= d0); }
+    assert(done.contains(a));
+    // parents of a and d0 are outside both subtrees
+    assert(!in_sub(a, pa));
+    assert(!in_sub(d0, pd));
+    assert(!in_sub(a, pd)) by { if in_sub(a, pd) { assert(d0.take(a.len() as int) =~= pd.take(a.len() as int)); } }
+    assert(!in_sub(d0, pa)) by { if in_sub(d0, pa) { assert(a.take(d0.len() as int) =~= pa.take(d0.len() as int)); assert(in_sub(d0, a)); assert(false); } }
+    assert(entry_ok(s0, a));
+    // 1. entries
+    assert forall|k: PathV| st.entries.contains_key(k) implies #[trigger] entry_ok(st, k) by {
+        assert(ent_of(st, k) == ent_after(s0, a, d0, done, k));
+        if in_sub(d0, k) {
+            lemma_key_shapes(a, d0, k);
+            let m = a + k.skip(d0.len() as int);
+            assert(done.contains(m));
+            assert(entry_ok(s0, m));
+            if k.len() == d0.len() {
+                assert(k =~= d0) by { assert(k.take(d0.len() as int) =~= k); }
+                assert(m =~= a) by { assert(k.skip(d0.len() as int) =~= Seq::<Name>::empty()); }
+                assert(ent_of(st, pd) == ent_after(s0, a, d0, done, pd));
+            } else {
+                let kp = k.drop_last();
+                let mp = m.drop_last();
+                assert(in_sub(a, mp)) by { assert(mp.take(a.len() as int) =~= m.take(a.len() as int)); }
+                assert(done.contains(mp));
+                assert(ent_of(st, kp) == ent_after(s0, a, d0, done, kp));
+            }
+        } else if in_sub(a, k) {
+            assert(false);
+        } else {
+            assert(entry_ok(s0, k));
+            if k.len() > 0 {
+                let kp = k.drop_last();
+                assert(kp.push(k.last()) =~= k);
+                assert(!in_sub(a, kp)) by { if in_sub(a, kp) { assert(k.take(a.len() as int) =~= kp.take(a.len() as int)); } }
+                assert(!in_sub(d0, kp)) by { if in_sub(d0, kp) { assert(k.take(d0.len() as int) =~= kp.take(d0.len() as int)); } }
+                assert(ent_of(st, kp) == ent_after(s0, a, d0, done, kp));
+                if kp == pa && k.last() == a.last() { assert(k =~= a) by { assert(pa.push(a.last()) =~= a); } }
+            }
+        }
+    }
+    // 2. listed children exist
+    assert forall|q: PathV, n: Name| #[trigger] kids_ok(st, q, n) by {
+        if st.entries.contains_key(q) && st.entries[q].kids is Some && st.entries[q].kids->Some_0.contains(n) {
+            let c = q.push(n);
+            assert(c.drop_last() =~= q && c.last() == n);
+            assert(ent_of(st, q) == ent_after(s0, a, d0, done, q));
+            assert(ent_of(st, c) == ent_after(s0, a, d0, done, c));
+            if in_sub(d0, q) {
+                lemma_key_shapes(a, d0, q);
+                let m = a + q.skip(d0.len() as int);
+                assert(kids_ok(s0, m, n));
+                assert(in_sub(d0, c)) by { assert(c.take(d0.len() as int) =~= q.take(d0.len() as int)); }
+                assert(a + c.skip(d0.len() as int) =~= m.push(n)) by { assert(c.skip(d0.len() as int) =~= q.skip(d0.len() as int).push(n)); }
+                assert(in_sub(a, m.push(n))) by { assert(m.push(n).take(a.len() as int) =~= m.take(a.len() as int)); }
+            } else if in_sub(a, q) {
+                assert(false);
+            } else {
+                assert(kids_ok(s0, q, n));
+                if q == pd && n == d0.last() {
+                    assert(c =~= d0) by { assert(pd.push(d0.last()) =~= d0); }
+                    assert(a + c.skip(d0.len() as int) =~= a) by { assert(c.skip(d0.len() as int) =~= Seq::<Name>::empty()); }
+                } else {
+                    // n was listed in s0 and is not the removed name
+                    assert(s0.entries[q].kids->Some_0.contains(n));
+                    assert(s0.entries.contains_key(c));
+                    if in_sub(a, c) {
+                        // q is outside the source tree, so c can only be a itself
+                        assert(c.len() == a.len()) by { if c.len() > a.len() { assert(q.take(a.len() as int) =~= c.take(a.len() as int)); } }
+                        assert(c =~= a) by { assert(c.take(a.len() as int) =~= c); }
+                        assert(q =~= pa && n == a.last());
+                        assert(false);
+                    }
+                    if in_sub(d0, c) { assert(false); }
+                }
+            }
+        }
+    }
+    // 3. file contents
+    assert forall|k: PathV| #[trigger] file_ok(st, k) by {
+        assert(ent_of(st, k) == ent_after(s0, a, d0, done, k));
+        assert(file_of(st, k) == file_after(s0, a, d0, done, k));
+        if in_sub(d0, k) {
+            lemma_key_shapes(a, d0, k);
+            let m = a + k.skip(d0.len() as int);
+            assert(file_ok(s0, m));
+        } else {
+            assert(file_ok(s0, k));
+        }
+    }
+    // 4. root
+    assert(!in_sub(a, root()) && !in_sub(d0, root()));
+    assert(ent_of(st, root()) == ent_after(s0, a, d0, done, root()));
+    assert(root() != pd || true);
+}
+//@ obligation lemma_key_shapes props=C03,C09
+//@ obligation lemma_moved_wf props=C03,C09
+
 //@ item move_p file=src/sys/fs/memfs/vfs.rs block="impl VirtualFileSystem for Memfs" fn=move_p props=C09,C01,C03,C12
 //@ sig fn move_p<T: AsRef<Path>, U: AsRef<Path>>(&self, src: T, dst: U) -> RvResult<()>
 //@ rw R11 1 ⟦let mut guard = self.write_guard();⟧ => ⟦⟧
@@ -531,7 +656,11 @@ pub proof fn lemma_final(s0: St, a: PathV, done: Set<PathV>, ps: Seq<PathBuf>)
             }
 //@ endins
 //@ ins before#-1 ⟦Ok(())⟧
-        proof { lemma_final(s0, a, done, paths@); }
+        proof {
+            lemma_final(s0, a, done, paths@);
+            if d0 != a && !s0.entries[d0.drop_last()].link { lemma_moved_wf(s0, a, d0, guard.st()); }
+            if d0 == a { reveal(state_after); assert(guard.st().entries =~= s0.entries); assert(guard.st().files =~= s0.files); assert(guard.st() == s0); }
+        }
 //@ endins
 pub fn move_p(guard: &mut MemfsGuard, src: &PathBuf, dst: &PathBuf) -> (r: RvResult<()>)
     requires wf(old(guard).st()), move_hyp(old(guard).st(), src.comps(), dst.comps()),
@@ -549,5 +678,7 @@ pub fn move_p(guard: &mut MemfsGuard, src: &PathBuf, dst: &PathBuf) -> (r: RvRes
             // a valid move relocates exactly the source subtree: every entry and file below src reappears below the destination with
             // its path updated, the source disappears, the two parent listings are adjusted and nothing else changes
             &&& valid ==> r is Ok && state_after(final(guard).st(), s0, a, d0, sub_dom(s0, a))                        //@ clause move_p.relocates_exactly_the_subtree [C09,C01]
+            // the relocated tree is well formed, unless the destination's parent is a symlink to a directory (known finding add-under-symlink-parent)
+            &&& (wf(final(guard).st()) || (valid && s0.entries[d0.drop_last()].link))                               //@ clause move_p.wf_preserved [C03]
         }),
 //@ body
